@@ -104,12 +104,16 @@ func (s *Server) listenerLoop(ctx context.Context, listener net.Listener) {
 			conn.Close()
 			continue
 		}
+		// The connection occupies its slot from now on until it ends, whether
+		// or not it ever authenticates or requests a shell.
+		s.stats.incrementConnections()
 		go s.handleConnection(ctx, conn)
 	}
 }
 
 func (s *Server) handleConnection(ctx context.Context, conn net.Conn) {
 	dlog.Server.Info("Handling connection")
+	defer s.stats.decrementConnections()
 
 	sshConn, chans, reqs, err := gossh.NewServerConn(conn, s.sshServerConfig)
 	if err != nil {
@@ -117,7 +121,6 @@ func (s *Server) handleConnection(ctx context.Context, conn net.Conn) {
 		return
 	}
 
-	s.stats.incrementConnections()
 	go gossh.DiscardRequests(reqs)
 	for newChannel := range chans {
 		go s.handleChannel(ctx, sshConn, newChannel)
@@ -207,7 +210,6 @@ func (s *Server) handleRequests(ctx context.Context, sshConn gossh.Conn,
 				if err := sshConn.Wait(); err != nil && err != io.EOF {
 					dlog.Server.Error(user, err)
 				}
-				s.stats.decrementConnections()
 				dlog.Server.Info(user, "Good bye Mister!")
 				terminate()
 			}()
